@@ -215,6 +215,55 @@ def sig_rows(sig, pyfunc) -> list[dict]:
     return out
 
 
+JUDGED_BASES = {"int", "symint", "float", "bool", "str", "scalar"}
+
+
+def dval(v, absent: bool = False, judged_kind: bool = True):
+    """Default value -> DVal as a JSON-able tuple: ("absent",) | ("none",) | ("bool", b) | ("num", n, d) | ("str", s) |
+    ("nums", [[n, d], …]) | ("opaque",).  Only exact python `bool/int/float/str` (no enum members, no infinities) and
+    lists/tuples of exact `int/float` are concrete; everything else is opaque."""
+    from fractions import Fraction
+
+    def num(x):
+        if type(x) is int or (type(x) is float and x == x and abs(x) != float("inf")):
+            f = Fraction(x)
+            return [f.numerator, f.denominator]
+        return None
+
+    if absent:
+        return ("absent",)
+    if v is None:
+        return ("none",)
+    if not judged_kind:
+        return ("opaque",)
+    if type(v) is bool:
+        return ("bool", v)
+    if num(v) is not None:
+        return ("num", *num(v))
+    if type(v) is str:
+        return ("str", v)
+    if type(v) in (list, tuple) and all(num(x) is not None for x in v):
+        return ("nums", [num(x) for x in v])
+    return ("opaque",)
+
+
+def py_defaults(pyfunc, names: list[str]) -> list:
+    ps = inspect.signature(pyfunc).parameters
+    return [dval(ps[n].default, absent=(n not in ps or ps[n].default is inspect.Parameter.empty)) for n in names]
+
+
+def schema_defaults(target, aten: dict) -> list:
+    """Structured defaults of the installed PyTorch (`torch._C.Argument.default_value`), in the order positional ++ kwonly;
+    values of dtype / layout / memory-format / device / … arguments are opaque (their python stand-ins are not comparable)."""
+    by_name = {a.name: a for a in target._schema.arguments}
+    out = []
+    for x in aten["positional"] + aten["kwonly"]:
+        a = by_name[x["name"]]
+        out.append(dval(a.default_value if a.has_default_value() else None, absent=not a.has_default_value(),
+                        judged_kind=x["base"] in JUDGED_BASES))
+    return out
+
+
 def builtin_schema(fn) -> dict | None:
     """Python builtins the exporter maps `_operator::x` / `math::x` to: positional-only python values."""
     try:
@@ -303,6 +352,13 @@ def load(record_warnings: bool = True) -> dict:
                 schema_text = "torchvision is not installed"
             else:
                 res = "undefined"
+        pdef = py_defaults(pyfunc, [p["name"] for p in params])
+        if res == "resolved":
+            adef = schema_defaults(target, aten)
+        elif aten is not None:  # python builtins: defaults (none today) are not readable as values
+            adef = [("opaque",) if x["hasDefault"] else ("absent",) for x in aten["positional"] + aten["kwonly"]]
+        else:
+            adef = []
         if aten is not None and q.startswith(INT_ONLY_PREFIXES):
             # Scalars of the bitwise / shift operators are integers by the operator's meaning
             for x in aten["positional"] + aten["kwonly"]:
@@ -318,6 +374,8 @@ def load(record_warnings: bool = True) -> dict:
                 "res": res,
                 "aten": aten or {"positional": [], "kwonly": []},
                 "schemaText": schema_text,
+                "adef": adef,
+                "pdef": pdef,
             }
         )
         objs.append(f)
@@ -357,6 +415,19 @@ def lean_param(p: dict) -> str:
     )
 
 
+def lean_dval(d) -> str:
+    k = d[0]
+    if k in ("absent", "none", "opaque"):
+        return "." + k
+    if k == "bool":
+        return f"(.bool {lbool(d[1])})"
+    if k == "num":
+        return f"(.num ({d[1]}) {d[2]})"
+    if k == "str":
+        return f"(.str {lcodes(d[1])})"
+    return "(.nums [" + ", ".join(f"(({n}), {m})" for n, m in d[1]) + "])"
+
+
 def lcodes(s: str) -> str:
     return "[" + ", ".join(str(ord(c)) for c in s) + "]"
 
@@ -371,7 +442,9 @@ def lean_row(r: dict) -> str:
         f"  ⟨{lcodes(r['qualified'])}, {lbool(r['isComplex'])}, {mode}, .{r['res']},\n"
         f"   ⟨[{pos}], [{kw}]⟩,\n"
         f"   [{sig}],\n"
-        f"   {lcodes(r['func'])}⟩"
+        f"   {lcodes(r['func'])},\n"
+        f"   [{', '.join(lean_dval(d) for d in r['adef'])}],\n"
+        f"   [{', '.join(lean_dval(d) for d in r['pdef'])}]⟩"
     )
 
 
